@@ -1195,6 +1195,100 @@ func ruleScopePrecedence(r *Run) {
 					map[bool]string{true: "the item's fields are written last or the outer variables only fill gaps", false: "the outer variables are written after the item's fields and overwrite them — a placeholder named like a document-level variable shows that variable in every expanded row instead of the item's value"}[okAll]))
 		}
 	}
+	// the same through an overwriting merge: a fresh *TemplateData that has received a loop item's
+	// fields (stores into its Variables inside a range over some other map) and is THEN handed to a
+	// method that copies another data set's Variables over the receiver's without looking
+	overwriting := map[*ssa.Function]bool{}
+	for _, fn := range p.ModFuncs() {
+		if fn.Signature.Recv() == nil || !typeIs(fn.Signature.Recv().Type(), pkgDoc, "TemplateData") || len(fn.Params) < 2 || !typeIs(fn.Params[1].Type(), pkgDoc, "TemplateData") {
+			continue
+		}
+		for _, l := range naturalLoops(fn) {
+			ri := rangeOf(l)
+			if ri == nil {
+				continue
+			}
+			ch, root := addrChain(stripLoadsAddr(ri.X))
+			if len(ch) == 0 || !fieldIs(p, ch[len(ch)-1], pkgDoc, "TemplateData", "Variables") || stripLoads(root) != ssa.Value(fn.Params[1]) {
+				continue
+			}
+			for b := range l.Body {
+				for _, in := range b.Instrs {
+					mu, ok := in.(*ssa.MapUpdate)
+					if !ok {
+						continue
+					}
+					ch2, root2 := addrChain(stripLoadsAddr(mu.Map))
+					if len(ch2) > 0 && fieldIs(p, ch2[len(ch2)-1], pkgDoc, "TemplateData", "Variables") && stripLoads(root2) == ssa.Value(fn.Params[0]) {
+						// unguarded?
+						guarded := false
+						for b2 := range l.Body {
+							if b2 != l.Header && b2.Dominates(b) && len(b2.Instrs) > 0 {
+								if iff, ok := b2.Instrs[len(b2.Instrs)-1].(*ssa.If); ok {
+									if ex, ok := iff.Cond.(*ssa.Extract); ok {
+										if _, ok := ex.Tuple.(*ssa.Lookup); ok {
+											guarded = true
+										}
+									}
+								}
+							}
+						}
+						if !guarded {
+							overwriting[fn] = true
+						}
+					}
+				}
+			}
+		}
+	}
+	for _, fn := range p.ModFuncs() {
+		if fn.Pkg == nil || fn.Pkg.Pkg.Path() != pkgDoc {
+			continue
+		}
+		allInstrs(fn, func(in ssa.Instruction) {
+			c, ok := in.(*ssa.Call)
+			if !ok {
+				return
+			}
+			cal := staticCallee(c)
+			if cal == nil || !overwriting[cal] || len(c.Call.Args) < 2 {
+				return
+			}
+			recv := c.Call.Args[0]
+			// item fields written into recv.Variables before the call, inside a range over a map
+			var itemFill *ssa.MapUpdate
+			for _, l := range naturalLoops(fn) {
+				ri := rangeOf(l)
+				if ri == nil {
+					continue
+				}
+				if _, isMap := ri.X.Type().Underlying().(*types.Map); !isMap {
+					continue
+				}
+				for b := range l.Body {
+					for _, in2 := range b.Instrs {
+						mu, ok := in2.(*ssa.MapUpdate)
+						if !ok {
+							continue
+						}
+						ch, root := addrChain(stripLoadsAddr(mu.Map))
+						if len(ch) == 0 || !fieldIs(p, ch[len(ch)-1], pkgDoc, "TemplateData", "Variables") || stripLoads(root) != stripLoads(recv) {
+							continue
+						}
+						if b != c.Block() && reachableBlocks(b, nil)[c.Block()] && !l.Body[c.Block()] {
+							itemFill = mu
+						}
+					}
+				}
+			}
+			if itemFill == nil {
+				return
+			}
+			n++
+			r.Check("scope-precedence", shortName(topLevel(fn))+":"+shortName(cal), c.Pos(), false,
+				fmt.Sprintf("%s fills a data set with a loop item's fields and then calls %s on it, which copies the outer data's variables over whatever is there: an item field named like a document-level variable is replaced by that variable in every expanded row", shortName(topLevel(fn)), shortName(cal)))
+		})
+	}
 	r.Count("scope_maps_filled_from_item_and_variables", n)
 }
 
